@@ -251,7 +251,7 @@ def run_unit(unit, st, tier):
 def raw_spelling(rec):
     """how the library currently spells the locations (the same nucleotides can be written with past-the-end or negative
     coordinates, depending on the operations a record went through)"""
-    return json.dumps(sorted((f.id, snapshot.loc_parts(f.location)) for f in rec.features))
+    return json.dumps(sorted(json.dumps([str(f.id), f.type, snapshot.loc_parts(f.location)]) for f in rec.features))
 
 
 SPELL_KS = [1, 2, -1, -3]
